@@ -11,6 +11,7 @@ COMMON_ASSUMPTIONS = [
 
 PROPS = {
     "C17": {
+        "kani": ["ext_try_from_u8_exact:kani-complete", "ext_try_from_usize_exact:kani-complete"],
         "units": ["ctors", "commit"],
         "design_ref": "DESIGN.md section 7, C17",
         "technique": "contract-based deductive verification (Verus) of the real constructors, extracted mechanically on every run; iff-postconditions",
@@ -67,7 +68,8 @@ PROPS = {
         ],
     },
     "C16": {
-        "units": ["verify", "nonce", "gens", "ctors"],
+        "kani": ["padding_contract:kani-complete"],
+        "units": ["verify", "nonce", "gens", "ctors", "codec"],
         "design_ref": "DESIGN.md section 7, C16",
         "technique": "contract-based deductive verification (Verus): built-in panic-freedom obligations (index, overflow, unwrap, shift) and dependency preconditions (dalek multiscalar length assertions) on the real verification path",
         "claim": "verify_batch, verify, the consistency check, the decompression helpers, nonce/encode_usize, compute_generator_padding and the generator iterator are proved "
@@ -80,6 +82,7 @@ PROPS = {
         ],
     },
     "C15": {
+        "kani": ["ext_try_from_u8_exact:kani-complete"],
         "units": ["codec", "ctors"],
         "design_ref": "DESIGN.md section 7, C15",
         "technique": "contract-based deductive verification (Verus) of the real from_bytes / to_bytes (closures, chunks_exact, itertools tuples modelled by verified adapters); iff-acceptance for byte strings of every length",
